@@ -4,6 +4,7 @@ package main
 // came from. Declarations are collected per verification context.
 
 import (
+	"regexp"
 	"fmt"
 	"go/types"
 	"os"
@@ -131,6 +132,50 @@ type Ctx struct {
 	csort     map[string]string // constant name -> sort
 	defs      map[string]string // heap map version constant -> the term it was defined as (heapSet)
 	allocs    map[string]bool   // allocation constants (pairwise distinct)
+	specAxioms map[string]bool  // formulas assumed from 'axiom' declarations (dropped from a query they are irrelevant to)
+}
+
+var absSymRe = regexp.MustCompile(`abs![A-Za-z0-9_.]+`)
+
+// dropIrrelevantAxioms removes declared axioms about abstract spec functions none of which occurs
+// anywhere else in the query (sound: fewer hypotheses).
+func (c *Ctx) dropIrrelevantAxioms(pc []string, goal string) []string {
+	if len(c.specAxioms) == 0 {
+		return pc
+	}
+	used := map[string]bool{}
+	for _, m := range absSymRe.FindAllString(goal, -1) {
+		used[m] = true
+	}
+	for _, p := range pc {
+		if c.specAxioms[p] {
+			continue
+		}
+		if strings.Contains(p, "abs!") {
+			for _, m := range absSymRe.FindAllString(p, -1) {
+				used[m] = true
+			}
+		}
+	}
+	var out []string
+	for _, p := range pc {
+		if c.specAxioms[p] {
+			syms := absSymRe.FindAllString(p, -1)
+			if len(syms) > 0 {
+				rel := false
+				for _, m := range syms {
+					if used[m] {
+						rel = true
+					}
+				}
+				if !rel {
+					continue
+				}
+			}
+		}
+		out = append(out, p)
+	}
+	return out
 }
 
 // resolveSel reads map version m at key k through the store chain recorded in defs, as far as the
@@ -300,6 +345,7 @@ func (c *Ctx) render(pc []string, goal string, cover bool, cands []string, lens 
 		pc = append(append([]string(nil), pc...), t.list[1].String())
 		goal = t.list[2].String()
 	}
+	pc = c.dropIrrelevantAxioms(pc, goal)
 	if !cover && envInt("GOVC_MP", 1) == 1 {
 		pc = modusPonens(pc)
 	}
@@ -470,6 +516,46 @@ func (c *Ctx) render(pc []string, goal string, cover bool, cands []string, lens 
 		}
 	}
 	b.WriteString("(assert (not " + g + "))\n")
+	if lite && strings.Contains(b.String()[bodyStart:], "(bytes.str ") {
+		// characters of string(b[:n]) at the goal's skolem indices: instances of the axiom
+		// sat(bytes.str(c,o,n), i) = c[o+i], whose pattern the syntactic matcher cannot see through
+		// an interface or map round trip
+		seen := map[string]bool{}
+		var walk func(t *sx)
+		var terms []*sx
+		walk = func(t *sx) {
+			if t.list == nil {
+				return
+			}
+			if t.head() == "forall" || t.head() == "exists" {
+				return
+			}
+			if t.head() == "bytes.str" && len(t.list) == 4 {
+				k := t.String()
+				if !seen[k] && !strings.Contains(k, "q!") && len(terms) < 6 {
+					seen[k] = true
+					terms = append(terms, t)
+				}
+			}
+			for _, c := range t.list {
+				walk(c)
+			}
+		}
+		txt := b.String()[bodyStart:]
+		for _, line := range strings.Split(txt, "\n") {
+			if strings.Contains(line, "(bytes.str ") {
+				if t, err := parseSx(line); err == nil {
+					walk(t)
+				}
+			}
+		}
+		for _, t := range terms {
+			for _, sk := range in.prime {
+				c, o, n := t.list[1].String(), t.list[2].String(), t.list[3].String()
+				b.WriteString("(assert (=> (and (<= 0 " + sk + ") (< " + sk + " " + n + ")) (= (sat " + t.String() + " " + sk + ") (select " + c + " (+ " + o + " " + sk + ")))))\n")
+			}
+		}
+	}
 	if len(patAxioms) > 0 {
 		for _, inst := range ematch(patAxioms, b.String()[bodyStart:]) {
 			b.WriteString("(assert " + inst + ")\n")
